@@ -62,6 +62,10 @@ class Module:
         with open(self.path, encoding="utf-8") as f:
             self.src = f.read()
         self.tree = ast.parse(self.src, filename=self.path)
+        # local variable names are brought to the spelling of the reference copy (see sa/alpha.py): a valid alpha-renaming,
+        # so the rules - many of which name locals - decide the same thing whatever the locals are called
+        from . import alpha
+        self.alpha = alpha.normalise_module(self.tree, rel)
         self.tree._parent = None
         self.tree._mod = self
         for n in ast.walk(self.tree):
